@@ -179,6 +179,14 @@ func (w *Writer) Write(m Message) (int64, error) {
 	return w.writer(m)
 }
 
+// Validate returns an error if the message cannot be written in any format
+func Validate(m Message) error {
+	if len(m.Key)+len(m.Value) > maxMessageBodySize {
+		return fmt.Errorf("message too big")
+	}
+	return nil
+}
+
 const (
 	v1HeaderSize = 8 + 8 + 4 + 4 + 4 // 28: offset + unixmicro + keylen + valuelen + crc
 )
